@@ -8,6 +8,7 @@ package main
 
 import (
 	"bytes"
+	"context"
 	"crypto/tls"
 	"fmt"
 	"io"
@@ -17,6 +18,8 @@ import (
 	"strconv"
 	"strings"
 	"sync"
+
+	"golang.org/x/net/dns/dnsmessage"
 
 	"github.com/smallstep/certificates/acme"
 )
@@ -123,6 +126,9 @@ func (k *Case) prepareReal() {
 			k.PortH = closedPort
 		}
 	}
+	if k.DNS != nil && k.DNS.Real && dnsConn == nil {
+		k.DNS.Real = false // no loopback UDP here: scripted answer
+	}
 	if k.TLS != nil && k.TLS.Real {
 		k.Value, k.PortT = "127.0.0.1", realTLSPort
 		if k.TLS.Refused {
@@ -157,4 +163,95 @@ func (s *scripted) realGet(u string) (*http.Response, error) {
 	}
 	resp.Body = io.NopCloser(bytes.NewReader(b))
 	return resp, nil
+}
+
+// ---------- a name server on the loopback interface for the real client's LookupTxt ----------
+
+var (
+	dnsConn net.PacketConn
+	dnsAddr string
+)
+
+// initDNS starts a UDP name server that answers every TXT question with the records of the current
+// case and makes net.DefaultResolver (what net.LookupTXT uses) talk to it.
+func initDNS() {
+	pc, err := net.ListenPacket("udp", "127.0.0.1:0")
+	if err != nil {
+		return // no loopback UDP: Real dns cases fall back to the scripted answer (see LookupTxt)
+	}
+	dnsConn, dnsAddr = pc, pc.LocalAddr().String()
+	go func() {
+		buf := make([]byte, 4096)
+		for {
+			n, from, err := pc.ReadFrom(buf)
+			if err != nil {
+				return
+			}
+			if resp := dnsAnswer(buf[:n]); resp != nil {
+				_, _ = pc.WriteTo(resp, from)
+			}
+		}
+	}()
+	net.DefaultResolver = &net.Resolver{PreferGo: true, Dial: func(ctx context.Context, network, address string) (net.Conn, error) {
+		var d net.Dialer
+		return d.DialContext(ctx, "udp", dnsAddr)
+	}}
+}
+
+func closeDNS() {
+	if dnsConn != nil {
+		dnsConn.Close()
+	}
+}
+
+func dnsAnswer(query []byte) []byte {
+	var p dnsmessage.Parser
+	hdr, err := p.Start(query)
+	if err != nil {
+		return nil
+	}
+	q, err := p.Question()
+	if err != nil {
+		return nil
+	}
+	realMu.Lock()
+	k := realCase
+	realMu.Unlock()
+	rh := dnsmessage.Header{ID: hdr.ID, Response: true, RecursionAvailable: true, RecursionDesired: hdr.RecursionDesired}
+	var w *DNSW
+	if k != nil {
+		w = k.DNS
+	}
+	switch {
+	case w == nil:
+		rh.RCode = dnsmessage.RCodeServerFailure
+	case w.RCode == "nxdomain":
+		rh.RCode = dnsmessage.RCodeNameError
+	case w.RCode == "servfail":
+		rh.RCode = dnsmessage.RCodeServerFailure
+	case w.RCode == "refused":
+		rh.RCode = dnsmessage.RCodeRefused
+	}
+	b := dnsmessage.NewBuilder(nil, rh)
+	b.EnableCompression()
+	if b.StartQuestions() != nil || b.Question(q) != nil || b.StartAnswers() != nil {
+		return nil
+	}
+	if w != nil && rh.RCode == dnsmessage.RCodeSuccess && q.Type == dnsmessage.TypeTXT {
+		for _, rec := range w.Records {
+			var chunks []string
+			for len(rec) > 255 {
+				chunks, rec = append(chunks, rec[:255]), rec[255:]
+			}
+			chunks = append(chunks, rec)
+			if b.TXTResource(dnsmessage.ResourceHeader{Name: q.Name, Class: dnsmessage.ClassINET, TTL: 1}, dnsmessage.TXTResource{TXT: chunks}) != nil {
+				return nil
+			}
+		}
+	}
+	out, err := b.Finish()
+	if err != nil {
+		return nil
+	}
+	return out
 }
